@@ -577,7 +577,7 @@ func (e statusErr) Error() string { return e.msg }
 type errCase struct {
 	Part   string `json:"part"`
 	Kind   string `json:"kind"` // system | complex | app | plain | status
-	Code   int64  `json:"code,omitempty"`
+	Code   int64  `json:"code,string,omitempty"` // as a string: the driver re-encodes cases through float64
 	Msg    string `json:"msg"`
 	Status int    `json:"status,omitempty"`
 	API    string `json:"api"`
@@ -947,7 +947,11 @@ func run(c *hl.Ctx) {
 	c.Info("leaves", lnames)
 	c.Info("unmarshalable", unames)
 	c.Info("map_keys", mapKeys)
-	c.Info("codes", codes)
+	var cnames []string
+	for _, cd := range codes {
+		cnames = append(cnames, strconv.FormatInt(cd, 10))
+	}
+	c.Info("codes", cnames)
 	c.Info("messages", messages)
 	c.Info("callbacks", callbacks)
 
